@@ -142,6 +142,18 @@ func runCase(b broker, workers int, c Case) {
 		fmt.Fprintln(os.Stderr, "subscribe:", err)
 		os.Exit(2)
 	}
+	// a second subscription from the SAME provider / transport factory on the neighbouring topic: what is
+	// "foreign" for the first subscriber is this one's traffic, and nothing of the first may ever reach it
+	var log2 []int64
+	s2, err := sub.SubscribeItemAdded(user+"x", func(ctx frugal.FContext, it *verifbase.Item) {
+		mu.Lock()
+		log2 = append(log2, it.ID)
+		mu.Unlock()
+	})
+	if err != nil {
+		fmt.Fprintln(os.Stderr, "subscribe 2:", err)
+		os.Exit(2)
+	}
 	if b.name() == "stomp" {
 		time.Sleep(3 * time.Millisecond) // SUBSCRIBE frame is asynchronous in go-stomp
 	}
@@ -151,7 +163,7 @@ func runCase(b broker, workers int, c Case) {
 	fail := func(key, text string) {
 		res.Violations = append(res.Violations, Violation{b.name() + "/" + key, fmt.Sprintf("%s, %d worker(s), kinds %v, unsubscribe before #%d: %s", b.name(), workers, c.Kinds, c.Unsub, text), replay})
 	}
-	next := int64(0)      // sequential message number (trace ids)
+	next := int64(0)          // sequential message number (trace ids)
 	caseID := map[int64]int{} // message number -> position in c.Kinds (1-based), 0 for sentinels
 	countDelivered := func() int { mu.Lock(); defer mu.Unlock(); return len(log) }
 	waitFor := func(id int64, d time.Duration) bool {
@@ -259,7 +271,45 @@ func runCase(b broker, workers int, c Case) {
 	}
 	res.Delivered += len(log)
 	evs := append([]string(nil), events...)
+	// the neighbour got exactly the messages published on its topic, each once
+	var wantForeign, gotForeign []int
+	for id, pos := range caseID {
+		if pos > 0 && c.Kinds[pos-1] == "foreign" {
+			wantForeign = append(wantForeign, int(id))
+		}
+	}
+	for _, id := range log2 {
+		gotForeign = append(gotForeign, int(id))
+	}
 	mu.Unlock()
+	sort.Ints(wantForeign)
+	if !unsubscribed {
+		// give the neighbour's worker a moment for the last message
+		for dl := time.Now().Add(300 * time.Millisecond); time.Now().Before(dl); time.Sleep(200 * time.Microsecond) {
+			mu.Lock()
+			n := len(log2)
+			mu.Unlock()
+			if n >= len(wantForeign) {
+				break
+			}
+		}
+		mu.Lock()
+		gotForeign = gotForeign[:0]
+		for _, id := range log2 {
+			gotForeign = append(gotForeign, int(id))
+		}
+		mu.Unlock()
+	}
+	sort.Ints(gotForeign)
+	if len(wantForeign) == 0 {
+		wantForeign = []int{}
+	}
+	if len(gotForeign) == 0 {
+		gotForeign = []int{}
+	}
+	if !reflect.DeepEqual(gotForeign, wantForeign) {
+		fail("neighbour-topic", fmt.Sprintf("a second subscriber of the same provider on the neighbouring topic saw messages %v, published there were %v (messages crossed topics or were lost)", gotForeign, wantForeign))
+	}
 	exp := append([]int(nil), c.Expect...)
 	cmpGot := append([]int(nil), got...)
 	if workers > 1 {
@@ -282,6 +332,14 @@ func runCase(b broker, workers int, c Case) {
 			key = "order"
 		}
 		fail(key, fmt.Sprintf("handler saw messages %v (positions in the sequence), the specification says %v", got, c.Expect))
+	}
+	if b.name() != "stomp" {
+		d2 := make(chan struct{})
+		go func() { s2.Unsubscribe(); close(d2) }()
+		select {
+		case <-d2:
+		case <-time.After(time.Second):
+		}
 	}
 	if !unsubscribed && b.name() != "stomp" {
 		d := make(chan struct{})
